@@ -45,9 +45,11 @@ func loadMutants() {
 func runSelfTest(r *Run, spec *propSpec) {
 	loadMutants()
 	ms := mutantCatalogue[spec.ID]
-	if len(ms) == 0 {
+	seeds := seededFor(spec.ID)
+	if len(ms) == 0 && len(seeds) == 0 {
 		return
 	}
+	defer runSeeded(r, spec, seeds)
 	r.Rule(spec.ID+".SELF", "checker sensitivity: every catalogued source rewrite (overlay, in memory) that breaks a clause must be reported by the rule naming the mutated construct, and every catalogued behaviour-preserving rewrite (renamed locals, cached operands, split statements, added checks, reordered independent checks, equivalent conditions, loop forms) must not be reported; a surviving mutant or a false alarm fails the thorough check")
 	st := &MutantStats{}
 	r.Mutants = st
@@ -152,4 +154,102 @@ func runMutateCLI(args []string) int {
 	}
 	fmt.Printf("%d violations\n", len(viol))
 	return 0
+}
+
+// ---- seeded changes as thorough-tier mutants ----
+
+type seededChange struct {
+	ID     string
+	Patch  string
+	Expect bool // the quick check is known to report it (seeded/EXPECT.json)
+}
+
+func seededFor(prop string) []seededChange {
+	var expect map[string]bool
+	if err := readJSON(filepath.Join(verifDir(), "seeded", "EXPECT.json"), &expect); err != nil {
+		return nil
+	}
+	dirs, _ := filepath.Glob(filepath.Join(verifDir(), "seeded", "C*"))
+	var out []seededChange
+	for _, d := range dirs {
+		var meta struct{ Property string }
+		if err := readJSON(filepath.Join(d, "meta.json"), &meta); err != nil || meta.Property != prop {
+			continue
+		}
+		bs, err := os.ReadFile(filepath.Join(d, "patch.diff"))
+		if err != nil {
+			continue
+		}
+		id := filepath.Base(d)
+		out = append(out, seededChange{ID: id, Patch: string(bs), Expect: expect[id]})
+	}
+	return out
+}
+
+// runSeeded re-analyses the tree with each independently written breaking change applied in memory:
+// the ones the quick check is known to report must still be reported (regression of the checker), the
+// known misses are listed as such.
+func runSeeded(r *Run, spec *propSpec, seeds []seededChange) {
+	if len(seeds) == 0 {
+		return
+	}
+	r.Rule(spec.ID+".SEED", "seeded changes: every independently written breaking change of this property stored under seeded/ (applied as an in-memory overlay) that the rules are known to report is still reported; known misses are listed, not hidden")
+	st := r.Mutants
+	if st == nil {
+		st = &MutantStats{}
+		r.Mutants = st
+	}
+	for _, sc := range seeds {
+		ov, err := applyUnifiedDiff(repoRoot(), sc.Patch)
+		if err != nil {
+			st.Skipped++
+			st.Names = append(st.Names, sc.ID+": skipped ("+firstLine(err.Error())+")")
+			continue
+		}
+		viol, err := analyseOverlay(spec, ov)
+		if err != nil {
+			st.Skipped++
+			st.Names = append(st.Names, sc.ID+": skipped ("+firstLine(err.Error())+")")
+			continue
+		}
+		st.Applied++
+		switch {
+		case len(viol) > 0:
+			st.Killed++
+			st.Names = append(st.Names, sc.ID+": reported")
+			r.Pass(spec.ID+".SEED", sc.ID, "seeded/"+sc.ID, "reported: "+viol[0])
+		case !sc.Expect:
+			st.Names = append(st.Names, sc.ID+": known miss (see DESIGN §8)")
+			r.Pass(spec.ID+".SEED", sc.ID, "seeded/"+sc.ID, "known miss: outside what the static rules decide (DESIGN §8)")
+		default:
+			st.Names = append(st.Names, sc.ID+": NO LONGER REPORTED")
+			r.FailKind("checker-insensitive", spec.ID+".SEED", sc.ID, "seeded change "+sc.ID+" used to be reported and no longer is")
+		}
+	}
+}
+
+func analyseOverlay(spec *propSpec, overlay map[string][]byte) ([]string, error) {
+	prog, err := LoadProgram(overlay, false)
+	if err != nil {
+		return nil, fmt.Errorf("does not load: %w", err)
+	}
+	sub := NewRun(spec.ID, "mutant", prog)
+	func() {
+		defer func() {
+			if e := recover(); e != nil {
+				sub.FailKind("engine-panic", spec.ID+".ENGINE", "panic", fmt.Sprint(e))
+			}
+		}()
+		spec.Check(sub)
+	}()
+	var out []string
+	for _, o := range sub.Obls {
+		if !o.OK && !o.Known {
+			out = append(out, fmt.Sprintf("%s | %s | %s", o.Rule, o.Key, o.Pos))
+		}
+	}
+	prog, sub = nil, nil
+	runtime.GC()
+	debug.FreeOSMemory()
+	return out, nil
 }
